@@ -25,9 +25,13 @@ class Files(staticfiles.BaseFiles[ASGIApp]):
         if_none_match: str,
         if_modified_since: str,
     ) -> Response:
-        if self.if_none_match(
-            FileResponse.generate_etag(stat_result), if_none_match
-        ) or self.if_modified_since(stat_result.st_ctime, if_modified_since):
+        # RFC 7232 section 6: If-Modified-Since is only evaluated when the request
+        # carries no If-None-Match.
+        if (
+            self.if_none_match(FileResponse.generate_etag(stat_result), if_none_match)
+            if if_none_match
+            else self.if_modified_since(stat_result.st_ctime, if_modified_since)
+        ):
             response = Response(304)
         else:
             response = FileResponse(filepath, stat_result=stat_result)
